@@ -50,3 +50,32 @@ Theorem only_temporaries_left_behind : forall target ops s pre suf q,
   lookup (run s pre) q = lookup s q.
 Proof. exact only_temporaries. Qed.
 Print Assumptions only_temporaries_left_behind.
+
+(** ---- FilePath.moveTo between file systems (os.rename answers EXDEV: copy to a temporary next to the
+    destination, rename it into place, rename the source aside, remove it).  [src], [dst] and the two
+    temporaries are distinct names; [c] is the source's content.  At EVERY crash point (partial copies
+    of every length included): the destination holds its old content or the complete new one, and the
+    content is never lost — it is still at the source or already at the destination. *)
+Theorem cross_device_move_is_old_or_new_and_never_loses_the_content : forall s src dst tD tS c pre suf,
+  src <> dst -> tD <> src -> tD <> dst -> tS <> dst -> tS <> tD -> tS <> src ->
+  read s src = Some c ->
+  move_prog s src dst tD tS = pre ++ suf ->
+  (read (run s pre) dst = read s dst \/ read (run s pre) dst = Some c)
+  /\ (read (run s pre) src = Some c \/ read (run s pre) dst = Some c).
+Proof. exact move_crash. Qed.
+Print Assumptions cross_device_move_is_old_or_new_and_never_loses_the_content.
+
+Theorem completed_cross_device_move : forall s src dst tD tS c,
+  src <> dst -> tD <> src -> tD <> dst -> tS <> dst -> tS <> tD -> tS <> src ->
+  read s src = Some c ->
+  run_ok s (move_prog s src dst tD tS) = true ->
+  let s' := run s (move_prog s src dst tD tS) in
+  read s' dst = Some c /\ lookup s' src = None /\ lookup s' tD = None /\ lookup s' tS = None.
+Proof. exact move_complete. Qed.
+Print Assumptions completed_cross_device_move.
+
+Theorem cross_device_move_touches_nothing_else : forall s src dst tD tS pre suf q,
+  move_prog s src dst tD tS = pre ++ suf -> q <> src -> q <> dst -> q <> tD -> q <> tS ->
+  lookup (run s pre) q = lookup s q.
+Proof. exact move_frame. Qed.
+Print Assumptions cross_device_move_touches_nothing_else.
